@@ -38,6 +38,17 @@ func RenderFile(f *jen.File) ([]byte, error) {
 			return nil, fmt.Errorf("entry points disagree: File.Render wrote\n%s\nFile.GoString of the same File returns\n%s", out, gs)
 		}
 	}
+	if k%5 == 0 {
+		// the same File rendered into a writer that itself renders other (NoFormat and formatted) code before it
+		// looks at the bytes it was handed: they are still the bytes of this render
+		bw := &busyWriter{}
+		if err := f.Render(bw); err != nil {
+			return nil, fmt.Errorf("entry points disagree: File.Render into a bytes.Buffer succeeds, into a writer that renders other code inside Write it fails: %v", err)
+		}
+		if !bytes.Equal(bw.buf.Bytes(), out) {
+			return nil, fmt.Errorf("entry points disagree: File.Render wrote\n%s\ninto a bytes.Buffer, but into a writer that renders other code inside Write it wrote\n%s", out, bw.buf.Bytes())
+		}
+	}
 	if k%7 == 0 {
 		if dir, err := os.MkdirTemp("", "verif-save-"); err == nil {
 			defer os.RemoveAll(dir)
@@ -57,4 +68,18 @@ func RenderFile(f *jen.File) ([]byte, error) {
 		}
 	}
 	return out, nil
+}
+
+type busyWriter struct{ buf bytes.Buffer }
+
+func (w *busyWriter) Write(p []byte) (int, error) {
+	for _, nf := range []bool{true, false} {
+		d := jen.NewFile("decoy")
+		d.NoFormat = nf
+		d.Var().Id("decoy").Op("=").Lit("decoy decoy decoy")
+		_ = d.Render(&bytes.Buffer{})
+		_ = d.Render(&bytes.Buffer{})
+	}
+	_ = jen.Id("decoy").Op(":=").Lit(1).Render(&bytes.Buffer{})
+	return w.buf.Write(p)
 }
